@@ -75,6 +75,7 @@ func Mixed(t *rapid.T, maxOps int) (int, []hist.Op) {
 	links := 0
 	withSoft := rapid.IntRange(0, 2).Draw(t, "withSoftExtDense") == 0
 	reopens := rapid.SampledFrom([]int{0, 0, 1, 2}).Draw(t, "reopens")
+	groupLinks := 0
 	for i := 0; i < n; i++ {
 		k := rapid.SampledFrom([]string{"dataset", "dataset", "group", "write", "write", "attr", "attr", "attr", "attr", "delattr", "resize", "hard", "soft", "ext", "dense", "attrburst"}).Draw(t, "k")
 		if len(objs) == 0 && k != "group" {
@@ -153,6 +154,13 @@ func Mixed(t *rapid.T, maxOps int) (int, []hist.Op) {
 					}
 				}
 			case "hard":
+				if o.kind != "dataset" {
+					// every further name for a group multiplies the number of paths below it: a handful per history is enough
+					if groupLinks >= 4 {
+						break
+					}
+					groupLinks++
+				}
 				links++
 				c.Ops = append(c.Ops, hist.Op{K: "hard", Path: join(fmt.Sprintf("hl%d", links)), Target: o.path})
 			case "soft":
@@ -178,6 +186,12 @@ func Mixed(t *rapid.T, maxOps int) (int, []hist.Op) {
 					var dsets []info
 					for j := 0; j < nl; j++ {
 						tg := objs[(tgt0+j)%len(objs)]
+						if pad == "" && tg.kind != "dataset" {
+							if groupLinks >= 4 {
+								continue
+							}
+							groupLinks++
+						}
 						if pad != "" && tg.kind != "dataset" {
 							// hundreds of links to groups multiply the number of paths without adding anything
 							if dsets == nil {
